@@ -24,18 +24,17 @@ def formatForManFuel : Nat → Bytes → Bytes
 
 def formatForMan (s : Bytes) : Bytes := formatForManFuel (s.length + 1) s
 
-def manOption (E : Env) (P : Parser) (r : ORef) : Bytes :=
-  let o := P.opt r
+/-- one option entry of the man page, as a function of the option record and its derived names -/
+def manOptionText (E : Env) (o : Opt) (longNS envKey : Bytes) : Bytes :=
   let head := B ".TP\n\\fB" ++
     (if o.short ≠ 0 then B "\\fB\\-" ++ encodeRune o.short ++ B "\\fR" else []) ++
-    (if o.long ≠ [] then (if o.short ≠ 0 then B ", " else []) ++ B "\\fB\\-\\-" ++ manQuote (P.longNS r) ++ B "\\fR" else [])
+    (if o.long ≠ [] then (if o.short ≠ 0 then B ", " else []) ++ B "\\fB\\-\\-" ++ manQuote longNS ++ B "\\fR" else [])
   let valuePart :=
     if o.valueName ≠ [] || o.optionalArg then
       if o.optionalArg then
         B " [\\fI" ++ manQuote o.valueName ++ B "=" ++ manQuote (join (B ", ") (o.optionalValue.map (quote E))) ++ B "\\fR]"
       else B " \\fI" ++ manQuote o.valueName ++ B "\\fR"
     else []
-  let envKey := P.envKeyNS r
   let dflt :=
     if o.defaultMask ≠ [] then
       (if o.defaultMask ≠ B "-" then B " <default: \\fI" ++ manQuote o.defaultMask ++ B "\\fR>" else [])
@@ -44,6 +43,9 @@ def manOption (E : Env) (P : Parser) (r : ORef) : Bytes :=
     else []
   head ++ valuePart ++ dflt ++ (if o.required then B " (\\fIrequired\\fR)" else []) ++ B "\\fP\n" ++
     (if o.desc ≠ [] then formatForMan o.desc ++ [0x0A] else [])
+
+def manOption (E : Env) (P : Parser) (r : ORef) : Bytes :=
+  manOptionText E (P.opt r) (P.longNS r) (P.envKeyNS r)
 
 /-- `writeManPageOptions(wr, command.Group)` -/
 def manOptions (E : Env) (P : Parser) (ci : Nat) : Bytes :=
